@@ -205,6 +205,11 @@ def build(rng: random.Random, size: str = "quick"):
             b = gen.random_bban(spec, rng)
             if i < 2:
                 b = N.force_valid(cc, b) or b
+            else:
+                for _ in range(50):  # the last two are ones the reference rejects
+                    if N.verdict(cc, b, spec["bban_length"]) == R.REJECT:
+                        break
+                    b = gen.random_bban(spec, rng)
             add({"fn": "bban_check", "country": cc, "value": b}, f"natb:{cc}")
     # the same digit string as body of every national-algorithm country (equal component concatenations)
     for k in range(2 if size == "quick" else 8):
